@@ -45,6 +45,35 @@ def boot():
         raise HarnessError("qstrader imported from %s, expected under %s" % (where, rd))
     settings.set_print_events(False)
     _booted = True
+    preload()
+
+
+def preload():
+    """Import every qstrader module the worlds use (not the plotting/statistics package) and touch the pandas
+    code paths they need, so that forked children start warm and identical."""
+    import importlib
+    import pkgutil
+    import qstrader
+    for m in pkgutil.walk_packages(qstrader.__path__, "qstrader."):
+        if ".statistics" in m.name:
+            continue
+        try:
+            importlib.import_module(m.name)
+        except Exception:
+            pass
+    import pandas as pd
+    import numpy as np
+    import pytz
+    t = pd.Timestamp(0, unit="s", tz="UTC")
+    pd.date_range(t, t + pd.Timedelta(days=40), freq=pd.tseries.offsets.BDay())
+    pd.date_range(t, t + pd.Timedelta(days=40), freq="W-WED")
+    pd.date_range(t, t + pd.Timedelta(days=40), freq="BME")
+    pd.bdate_range(t, t + pd.Timedelta(days=4))
+    df = pd.DataFrame({"a": [1.0, np.nan]}, index=pd.DatetimeIndex([t, t + pd.Timedelta(days=1)]))
+    df.ffill()
+    df.index.get_indexer([t], method="pad")
+    pd.Series([1.0, 2.0]).pct_change()
+    t.tz_convert("US/Eastern")
 
 
 def qstrader_file():
